@@ -224,4 +224,38 @@ def matrix(tier):
     for mesh in ([3, 2, 2], [5, 3, 4]):
         out.append(("thmesh", {"xtal": "NaCl-prim-2", "S": S1, "mesh": mesh}))
         out.append(("thmesh", {"xtal": "NaCl-prim-2", "S": S1, "mesh": mesh, "meshsym": False}))
+    if tier == "quick":
+        return out
+    # thorough: the same kernels on other shapes: more atoms, other supercell matrices, more q-points than threads and fewer,
+    # odd/prime mesh numbers, every NAC variant with directions and group velocities
+    S3 = [[2, 0, 0], [0, 2, 0], [0, 0, 1]]
+    S4 = [[1, 0, 1], [0, 2, 0], [-1, 0, 1]]
+    I3 = [[1, 0, 0], [0, 1, 0], [0, 0, 1]]
+    for xt, S in (("wurtzite-4", S1), ("rutile-6", I3), ("NaCl-prim-2", S3), ("NaCl-prim-2", S4), ("mono-P21-2", S1), ("rhomb-prim-2", S2), ("CsCl-2", S3)):
+        for compact in (False, True):
+            for dense in (True, False):
+                out.append(("fcprod", {"xtal": xt, "S": S, "compact": compact, "dense": dense}))
+            out.append(("d2f", {"xtal": xt, "S": S, "compact": compact}))
+    for xt, S in (("NaCl-prim-2", S3), ("NaCl-prim-2", S4), ("wurtzite-4", I3), ("tri-P1-3", S3), ("CsCl-2", S1)):
+        for nac in (None, "wang", "gonze"):
+            if nac and xt == "CsCl-2":
+                continue
+            for nq in ((1, 2, 3, 7, 16, 17, 33) if nac != "gonze" else (1, 3)):
+                out.append(("qpoints", {"xtal": xt, "S": S, "nac": nac, "nq": nq, "compact": bool(nq % 2), "gv": nac != "gonze" and nq in (2, 7),
+                                        "qdir": [0.0, 0.0, 1.0] if (nac and nq == 3) else None, "dense": nq != 7}))
+    out.append(("gonze", {"xtal": "wurtzite-4", "S": I3}))
+    out.append(("gonze", {"xtal": "NaCl-prim-2", "S": S3, "compact": True}))
+    for nac in (None, "wang"):
+        out.append(("ddm", {"xtal": "wurtzite-4", "S": I3, "nac": nac}))
+        out.append(("ddm", {"xtal": "NaCl-prim-2", "S": S3, "nac": nac, "compact": True}))
+    for mesh in ([7, 1, 1], [1, 1, 17], [4, 4, 4], [2, 3, 5], [6, 5, 1]):
+        out.append(("thermal", {"xtal": "NaCl-prim-2", "S": S1, "mesh": mesh}))
+        out.append(("thermal", {"xtal": "tri-P1-3", "S": S1, "mesh": mesh, "meshsym": False}))
+        out.append(("dos", {"xtal": "NaCl-prim-2", "S": S1, "mesh": mesh}))
+        out.append(("dos", {"xtal": "tri-P1-3", "S": S1, "mesh": mesh, "xyz": mesh[0] == 2}))
+        out.append(("thmesh", {"xtal": "tri-P1-3", "S": S1, "mesh": mesh, "meshsym": False}))
+        out.append(("thmesh", {"xtal": "hcp-2", "S": S2, "mesh": mesh}))
+    for xt in ("bct-conv-2", "mono-C-conv-4", "NaCl-prim-2", "tri-P-1bar-2", "rhomb-prim-2"):
+        for mesh in ([1, 4, 9], [5, 5, 5]):
+            out.append(("thm", {"xtal": xt, "mesh": mesh}))
     return out
